@@ -39,6 +39,11 @@ def rmap(func, data):
     """
     if isinstance(data, Mapping):
         return {key: rmap(func, value) for key, value in data.items()}
+    if hasattr(data, "flatten") and hasattr(data, "shape"):
+        import numpy
+        return numpy.array([
+            rmap(func, elem) for elem in data.flatten().tolist()]
+            ).reshape(data.shape)
     if isinstance(data, Iterable) and not isinstance(data, str):
         return type(data)([rmap(func, elem) for elem in data])
     return func(data)
